@@ -324,4 +324,48 @@ theorem queries_eq {user : Option Cond} {gb : Option (Int × Int)} {ag : Bool} (
   simp only [this]
   exact mapM_some_map _ _
 
+/-! ### small facts used by the property theorems -/
+
+theorem splice_canon (c : Cond) (s e : Int) (h : c.canon = true) : (splice (some c) s e).canon = true := by
+  have hw : (wrapUser c).canon = true ∧ (wrapUser c).notOr = true := by
+    unfold wrapUser
+    split
+    · exact ⟨by simpa [Cond.canon] using h, by simp [Cond.notOr]⟩
+    · rename_i hne
+      refine ⟨h, ?_⟩
+      cases c with
+      | atom _ => rfl
+      | paren _ => rfl
+      | bin o l r => cases o with
+        | and => rfl
+        | or => exact absurd rfl (hne l r)
+  have hi : (Cond.bin .and (geTL s) (ltTL e)).canon = true ∧ (Cond.bin .and (geTL s) (ltTL e)).notOr = true := by
+    simp [Cond.canon, Cond.notOr, geTL, ltTL]
+  simp only [splice, Cond.canon, hw.1, hw.2, hi.2]
+  simp [geTL, ltTL, Cond.canon, Cond.notOr]
+
+theorem wrapUser_eval (c : Cond) (env : Env) : (wrapUser c).eval env = c.eval env := by
+  unfold wrapUser; split <;> simp [Cond.eval]
+
+theorem ticksOf_map_tickRange (offset period : Int) (l : List Int) :
+    ticksOf offset (l.map (tickRange offset period)) = l := by
+  induction l with
+  | nil => rfl
+  | cons a l ih => simp only [ticksOf, List.map_cons, tickRange] at ih ⊢; rw [ih]; congr 1; omega
+
+/-! Realise the equation lemmas of the definitions the property theorems unfold HERE, so that the audit of
+`Kap.Props.C16` lists property theorems only. -/
+theorem eqn_realise_1 : histFuel 0 0 = 1 := by simp [histFuel]
+theorem eqn_realise_2 : checkDBRPs [] [] = true := by simp [checkDBRPs]
+theorem eqn_realise_3 : startBatching [] [] = some [] := by simp [startBatching, checkDBRPs]
+theorem eqn_realise_4 : onlyDeclared [] [] = true := by simp [onlyDeclared]
+theorem eqn_realise_5 : firstLiveAfter (.cronEvery 1) 0 0 = 1 := by simp [firstLiveAfter]
+theorem eqn_realise_6 : firstLiveAfter (.every 1 true) 0 0 = ((0 + zeroOff) / 1 + 1) * 1 - zeroOff := by simp only [firstLiveAfter]
+theorem eqn_realise_7 : firstLiveAfter (.every 1 false) 0 0 = 1 := by simp [firstLiveAfter]
+theorem eqn_realise_8 : TOp.eval .ge 0 0 = true := by simp [TOp.eval]
+theorem eqn_realise_9 : rangeOfTick 0 0 0 = (0, 0) := by simp [rangeOfTick]
+theorem eqn_realise_10 : tickRange 0 0 0 = (0, 0) := by simp [tickRange]
+theorem eqn_realise_11 : ticksOf 0 [] = [] := by simp [ticksOf]
+theorem eqn_realise_12 : gbAligned 0 (1, 0) = true := by simp [gbAligned]
+
 end Kap.C16
